@@ -11,9 +11,11 @@ save -> load -> validate reproduces verdicts and values.
 import base64
 import itertools
 import json
+import multiprocessing
 import traceback
 
 from ..framework import Check, Violation
+from ..xplore import h64
 from ..gen import certs as G
 
 ABSENT = "<absent>"
@@ -64,6 +66,10 @@ def walk(d):
     return None
 
 
+class _Enough(Exception):
+    """Three executions of one case ran out of budget: the case is cut short (and says so)."""
+
+
 class C16(Check):
     id = "C16"
     level = "exploration"
@@ -101,6 +107,7 @@ class C16(Check):
         self.root1 = self.w1.pub("root").hex()
         self.root2 = G.pem_of(self.w2.cert("root", "root", G.T0 - 4000 * DAY, G.T0 + 4000 * DAY))
         self._c = {}
+        self.shared = multiprocessing.get_context("fork").Array("i", 4096)
 
     def bounds(self):
         return {"max_elements_all_functions": self.nmax, "rule_built_elements": 12,
@@ -125,7 +132,8 @@ class C16(Check):
         cs.append({"kind": "special"})
         cs.append({"kind": "long", "ver": 1})
         cs.append({"kind": "long", "ver": 2})
-        cs.sort(key=lambda c: -(c.get("n") or 0))
+        # small documents first: the shortest counterexamples get recorded before the per-key cap
+        cs.sort(key=lambda c: (c.get("n") or 0))
         return cs
 
     def run_case_single(self, case, choices, stats):
@@ -137,7 +145,11 @@ class C16(Check):
         if k == "one":
             self.evaluate(case["text"], case.get("label", "replay"), stats, vs)
         else:
-            getattr(self, "run_" + k)(case, stats, vs)
+            self.budget_hits = 0
+            try:
+                getattr(self, "run_" + k)(case, stats, vs)
+            except _Enough:
+                stats.bump("capped")
         # genuine defects hit thousands of documents: keep the two shortest inputs per key and case
         # (the framework stops a run after 2000 violation records)
         by = {}
@@ -145,10 +157,18 @@ class C16(Check):
             by.setdefault(v.key, []).append(v)
         out = []
         for k2, lst in by.items():
-            lst.sort(key=lambda v: len(v.d["case"]["text"]))
-            out.extend(lst[:2])
-            if len(lst) > 2:
-                stats.bump("violations_same_key_not_recorded", len(lst) - 2)
+            lst.sort(key=lambda v: (len(v.d["case"]["text"]), v.d["case"]["text"]))
+            keep = lst[:2]
+            # ... and at most ~40 records per key over all workers (counter shared through fork)
+            # (documents of <= 2 elements are always recorded: they are the shortest examples)
+            if case.get("n", 9) > 2:
+                slot = h64(k2) % len(self.shared)
+                with self.shared.get_lock():
+                    keep = keep[:max(0, 40 - self.shared[slot])]
+                    self.shared[slot] += len(keep)
+            out.extend(keep)
+            if len(lst) > len(keep):
+                stats.bump("violations_same_key_not_recorded", len(lst) - len(keep))
         return out
 
     # ---- building blocks -------------------------------------------------------------------
@@ -431,6 +451,10 @@ class C16(Check):
 
     # ---- one execution -----------------------------------------------------------------------
     def viol(self, vs, key, text, label, observed, expected, clause):
+        if ":nontermination:" in key:
+            self.budget_hits = getattr(self, "budget_hits", 0) + 1
+            if self.budget_hits > 3:
+                raise _Enough()
         vs.append(Violation("C16", key, {"kind": "one", "text": text, "label": label}, None,
                             observed, expected, clause))
 
@@ -560,7 +584,8 @@ class C16(Check):
                                 eq = v == sv2
                         else:
                             eq = v == sv2
-                        if not eq and diff == "-":
+                        if not eq and (diff == "-" or diff.endswith(".key")):
+                            # (a key saved in another encoding of the same point is blamed last)
                             diff = "%s.%s" % (e.get("type", "v1"), k2)
                     for k2 in s:
                         if k2 not in e and k2 in ("tweak", "message", "signature", "key", "auth_data",
